@@ -314,8 +314,8 @@ Lemma run_chain_or : forall orj ce t ls rest i s,
   (forall k, k <= 2 * length ls -> has_target s (pos_of (i + k)) = false) ->
   (forall k, k <= 2 * length ls -> t <> pos_of (i + k)) ->
   (forall k, k < length ls -> Nat.leb ce (pos_of (i + 2 * k + 1)) = false /\ existsb (Nat.eqb (pos_of (i + 2 * k + 1))) orj = true) ->
-  run orj ce (chain_code (or_jump t) ls ++ rest) i s =
-  run orj ce rest (i + 2 * length ls)
+  run orj ce [] (chain_code (or_jump t) ls ++ rest) i s =
+  run orj ce [] rest (i + 2 * length ls)
       (mkState (rev (cl true t (chain_items (nextid s) ls)) ++ stack s)
                (match ls with [] => targets s | _ => tsetdefault (targets s) t (nextid s) end)
                (nextid s + length ls)).
@@ -327,7 +327,7 @@ Proof.
     assert (H1 : has_target s (pos_of (S i)) = false) by (replace (S i) with (i + 1) by lia; apply Hnt; cbn [length]; lia).
     assert (H2 : has_target s (pos_of (S (S i))) = false) by (replace (S (S i)) with (i + 2) by lia; apply Hnt; cbn [length]; lia).
     rewrite (run_cons orj ce (ILoad n) _ i s (push (DAtom 0 0 n) s) eq_refl (step_load orj ce n i s H0)).
-    assert (Hstep : step orj ce (or_jump t neg) (S i) (push (DAtom 0 0 n) s) =
+    assert (Hstep : step orj ce [] (or_jump t neg) (S i) (push (DAtom 0 0 n) s) =
                     Some (mkState (DBool (nextid s) t true [dlit (Lit neg n)] :: stack s)
                                   (tsetdefault (targets s) t (nextid s)) (S (nextid s)))).
     { unfold step. rewrite has_target_push, H1.
@@ -375,8 +375,8 @@ Lemma run_clause : forall orj ce ls rest i s,
   (forall k, k < length ls -> Nat.leb ce (pos_of (i + 2 * k + 1)) = false) ->
   (forall k, k + 1 < length ls -> existsb (Nat.eqb (pos_of (i + 2 * k + 1))) orj = true) ->
   existsb (Nat.eqb (pos_of (i + 2 * length ls - 1))) orj = false ->
-  run orj ce (or_fwd ls (pos_of (i + 2 * length ls)) ++ rest) i s =
-  run orj ce rest (i + 2 * length ls)
+  run orj ce [] (or_fwd ls (pos_of (i + 2 * length ls)) ++ rest) i s =
+  run orj ce [] rest (i + 2 * length ls)
       (mkState (DBool (nextid s + length ls - 1) TOP false [clause_node (nextid s) (pos_of (i + 2 * length ls)) ls] :: stack s)
                (tsetdefault (targets s) TOP (nextid s + length ls - 1))
                (nextid s + length ls)).
@@ -403,7 +403,7 @@ Proof.
   cbn [app].
   rewrite (run_cons orj ce (ILoad n) _ i1 s1 (push (DAtom 0 0 n) s1) eq_refl
              (step_load orj ce n i1 s1 ltac:(rewrite <- (Nat.add_0_r i1); apply Hnt1; lia))).
-  assert (Hstep : step orj ce (IBack neg) (S i1) (push (DAtom 0 0 n) s1) =
+  assert (Hstep : step orj ce [] (IBack neg) (S i1) (push (DAtom 0 0 n) s1) =
                   Some (mkState (DBool (nextid s + (length ls0 + 1) - 1) TOP false [clause_node (nextid s) nextcl (ls0 ++ [Lit neg n])] :: stack s)
                                 (tsetdefault (targets s) TOP (nextid s + (length ls0 + 1) - 1))
                                 (nextid s + (length ls0 + 1)))).
@@ -491,7 +491,7 @@ Lemma run_cnf_from : forall cls orj ce i s items,
   targets s = match items with [] => [] | x :: _ => [(TOP, fst x)] end ->
   1 <= nextid s -> items_ok items (nextid s) ->
   (items <> [] \/ cls <> []) ->
-  exists final, run orj ce (cnf_code cls (pos_of i) ++ [ILoadElt; IYield]) i s = RGen (DElt 0 0) [[final]] /\
+  exists final, run orj ce [] (cnf_code cls (pos_of i) ++ [ILoadElt; IYield]) i s = RGen (DElt 0 0) [[final]] /\
                 strip final = all_or_one (map strip (map snd items) ++ map clause_pt cls).
 Proof.
   induction cls as [|ls r IH]; intros orj ce i s items Hall Hce Horj Hst Hts Hid [Hsorted [Hrange Hnodes]] Hsome.
@@ -624,6 +624,19 @@ Proof.
     rewrite to_bexp_list_clauses by assumption. reflexivity.
 Qed.
 
+Lemma no_copy_or_fwd : forall ls a, ~ In ICopy (or_fwd ls a).
+Proof.
+  induction ls as [|[neg n] r IH]; intros a H; [exact H|].
+  cbn [or_fwd] in H. destruct r as [|y s].
+  - destruct H as [H|[H|H]]; try discriminate. exact H.
+  - destruct H as [H|[H|H]]; try discriminate. exact (IH _ H).
+Qed.
+Lemma no_copy_cnf_code : forall cls p, ~ In ICopy (cnf_code cls p).
+Proof.
+  induction cls as [|ls r IH]; intros p H; [exact H|].
+  cbn [cnf_code] in H. apply in_app_or in H. destruct H as [H|H]; [exact (no_copy_or_fwd _ _ H) | exact (IH _ H)].
+Qed.
+
 Theorem roundtrip_cnf : forall cls, wf_alts cls -> decompile PFilter (cnf cls) = Some (cnf cls).
 Proof.
   intros cls Hwf. assert (Hall : Forall (fun ls => ls <> []) cls) by (destruct Hwf; assumption).
@@ -633,6 +646,10 @@ Proof.
   assert (Hce : conditions_end (cnf_stream cls) = pos_of (0 + 2 * total_lits cls)).
   { unfold cnf_stream. rewrite conditions_end_from, ce_from_app, ce_from_cnf_code by assumption. reflexivity. }
   rewrite Hce.
+  assert (Hvj : value_jumps (cnf_stream cls) = []).
+  { rewrite value_jumps_from. apply vj_from_no_copy. unfold cnf_stream. intro H. apply in_app_or in H.
+    destruct H as [H|[H|[H|[]]]]; try discriminate H. exact (no_copy_cnf_code _ _ H). }
+  rewrite Hvj.
   destruct (run_cnf_from cls (or_jumps (cnf_stream cls)) (pos_of (0 + 2 * total_lits cls)) 0 (init_state PFilter) [] Hall eq_refl)
     as [final [Hrun Hstrip]].
   - intros q ins Hn. rewrite existsb_exists. split.
